@@ -197,22 +197,16 @@ func (c13) Run(c *fw.Case) {
 
 	// Schema values built or edited in Go (shared, read-only): orders that list every property, a subset, absent names
 	// between and AFTER the present ones (For output with a property deleted afterwards), one sub-schema object used twice
+	// (built by hand, without calling into the package: set-up code must not warm anything that the concurrent phase is meant
+	// to meet cold - a CloneSchemas or ForType call here once hid a lazily initialised table from the race detector)
 	var goBuilt []*jsonschema.Schema
-	if fs, err := jsonschema.ForType(reflect.TypeFor[c13A](), nil); err == nil {
-		goBuilt = append(goBuilt, fs.CloneSchemas())
-		del := fs.CloneSchemas()
-		if len(del.PropertyOrder) > 0 {
-			last := del.PropertyOrder[len(del.PropertyOrder)-1]
-			delete(del.Properties, last)
-			for i, q := range del.Required {
-				if q == last {
-					del.Required = append(del.Required[:i:i], del.Required[i+1:]...)
-					break
-				}
-			}
-		}
-		goBuilt = append(goBuilt, del)
-	}
+	goBuilt = append(goBuilt,
+		&jsonschema.Schema{Type: "object", Properties: map[string]*jsonschema.Schema{"name": {Type: "string"}, "tags": {Types: []string{"null", "array"}, Items: &jsonschema.Schema{Type: "string"}}, "inner": {Type: "object", Properties: map[string]*jsonschema.Schema{"x": {Type: "integer"}, "y": {Type: "string"}}, Required: []string{"x"}, AdditionalProperties: &jsonschema.Schema{Not: &jsonschema.Schema{}}, PropertyOrder: []string{"x", "y"}}},
+			Required: []string{"name", "inner"}, AdditionalProperties: &jsonschema.Schema{Not: &jsonschema.Schema{}}, PropertyOrder: []string{"name", "tags", "inner"}},
+		// the same after `delete(s.Properties, "inner")`: the order list ends with a name that is no property any more
+		&jsonschema.Schema{Type: "object", Properties: map[string]*jsonschema.Schema{"name": {Type: "string"}, "tags": {Types: []string{"null", "array"}, Items: &jsonschema.Schema{Type: "string"}}},
+			Required: []string{"name"}, AdditionalProperties: &jsonschema.Schema{Not: &jsonschema.Schema{}}, PropertyOrder: []string{"name", "tags", "inner"}},
+	)
 	shared := &jsonschema.Schema{Type: "object", Properties: map[string]*jsonschema.Schema{"zip": {Type: "string"}, "city": {Type: "string"}}, PropertyOrder: []string{"zip", "city"}}
 	goBuilt = append(goBuilt,
 		&jsonschema.Schema{Properties: map[string]*jsonschema.Schema{"b": {Type: "integer"}, "a": {Type: "string"}, "c": {}}, PropertyOrder: []string{"c", "a"}},
